@@ -12,7 +12,9 @@ Inductive lpat := LPAny | LPPath | LPBool | LPString | LPInt | LPFloat | LPList 
 Inductive cpat :=
 | CPAny | CPFastStr | CPString | CPStr | CPVoid | CPU8 | CPBool | CPI8 | CPI16 | CPI32 | CPI64 | CPUInt32 | CPUInt64
 | CPF32 | CPF64 | CPOrderedF64 | CPUuid | CPBytes | CPLazyStaticRef | CPStaticRef | CPVec | CPArray | CPSet | CPBTreeSet
-| CPMap | CPBTreeMap | CPAdtStruct | CPAdtEnum | CPAdtNewType | CPArc.
+| CPMap | CPBTreeMap | CPAdtStruct | CPAdtEnum | CPAdtNewType | CPArc
+| CPLazyMap.      (* LazyStaticRef(Map | BTreeMap): as a PATTERN, the arm `LazyStaticRef(map) if matches!( **map, Map | BTreeMap)`;
+                     as the kind of a type, a LazyStaticRef whose inner type is a map (an unguarded LazyStaticRef pattern matches it too) *)
 
 (* the `bool /* const? */` an arm returns: a literal true / false, or computed (is_const of the parts, or delegated) *)
 Inductive flagk := FTrue | FFalse | FDyn.
@@ -29,13 +31,18 @@ Definition cpat_idx (c : cpat) : nat :=
   | CPAny => 0 | CPFastStr => 1 | CPString => 2 | CPStr => 3 | CPVoid => 4 | CPU8 => 5 | CPBool => 6 | CPI8 => 7 | CPI16 => 8
   | CPI32 => 9 | CPI64 => 10 | CPUInt32 => 11 | CPUInt64 => 12 | CPF32 => 13 | CPF64 => 14 | CPOrderedF64 => 15 | CPUuid => 16
   | CPBytes => 17 | CPLazyStaticRef => 18 | CPStaticRef => 19 | CPVec => 20 | CPArray => 21 | CPSet => 22 | CPBTreeSet => 23
-  | CPMap => 24 | CPBTreeMap => 25 | CPAdtStruct => 26 | CPAdtEnum => 27 | CPAdtNewType => 28 | CPArc => 29
+  | CPMap => 24 | CPBTreeMap => 25 | CPAdtStruct => 26 | CPAdtEnum => 27 | CPAdtNewType => 28 | CPArc => 29 | CPLazyMap => 30
   end%nat.
 Definition cpat_eqb (a b : cpat) : bool := Nat.eqb (cpat_idx a) (cpat_idx b).
 
 (* does the scrutinee kind (never LPAny / CPAny) match the pattern? *)
 Definition lmatch (pat k : lpat) : bool := match pat with LPAny => true | _ => lpat_eqb pat k end.
-Definition cmatch (pat k : cpat) : bool := match pat with CPAny => true | _ => cpat_eqb pat k end.
+Definition cmatch (pat k : cpat) : bool :=
+  match pat with
+  | CPAny => true
+  | CPLazyStaticRef => cpat_eqb CPLazyStaticRef k || cpat_eqb CPLazyMap k
+  | _ => cpat_eqb pat k
+  end.
 
 (* one arm: its alternatives (or-pattern) and the flag it returns *)
 Definition arm := (list (lpat * cpat) * flagk)%type.
